@@ -6,6 +6,7 @@ import (
 	"go/ast"
 	"go/printer"
 	"go/token"
+	"regexp"
 	"sort"
 	"strings"
 )
@@ -100,12 +101,35 @@ func fieldPosAfterLookahead(c *ctx) string {
 	return unknown("readField position", c.pos(fd))
 }
 
+// opErrPosAfterLookahead: does parseExe locate "'x' is not a valid executable operation type" from the counters
+// after readToken (`p.line, p.col-len(token)`), or from values sampled just before the token is read?
+func opErrPosAfterLookahead(c *ctx) string {
+	fd := c.funcs["exeParser.parseExe"]
+	if fd == nil {
+		fd = c.funcs["parseExe"]
+	}
+	if fd == nil {
+		return unknown("parseExe", "exeparser.go")
+	}
+	src := regexp.MustCompile(`\s+`).ReplaceAllString(c.src(fd.Body), " ")
+	const msg = `"'%s' is not a valid executable operation type", token)`
+	switch {
+	case strings.Contains(src, "parseError(p.line, p.col-len(token), "+msg):
+		return "true"
+	case strings.Contains(src, "parseError(line, col, "+msg) &&
+		strings.Contains(src, "line, col := p.line, p.col token, err = p.readToken()"):
+		return "false"
+	}
+	return unknown("parseExe operation-type error position", c.pos(fd))
+}
+
 func genParse(c *ctx) string {
 	var b strings.Builder
 	b.WriteString("namespace Ggql.Gen\n")
 	fmt.Fprintf(&b, "def sdlEmptyTokenSpins : Bool := %s\n", emptyTokenGuard(c))
 	fmt.Fprintf(&b, "def exeVarTypeOptional : Bool := %s\n", varTypeGuard(c))
 	fmt.Fprintf(&b, "def fieldPosAfterLookahead : Bool := %s\n", fieldPosAfterLookahead(c))
+	fmt.Fprintf(&b, "def opErrPosAfterLookahead : Bool := %s\n", opErrPosAfterLookahead(c))
 	type ent struct{ name, h string }
 	var ents []ent
 	for name, fd := range c.funcs {
